@@ -325,11 +325,19 @@ class Runner:
                     WORK.append(("ob", self, E_, ob_, sr["k"]))
                     reopened.append((idx_, sr["k"]))
         if len(WORK) > first_n:
-            res2 = run_forked(len(WORK) - first_n, lambda j: work_item(first_n + j), min(16, os.cpu_count() or 4), self.budget["ob_s"] + 45)
+            # a tree that violates the property typically fails MANY obligations, and each false one uses its whole budget: once a handful of
+            # sub-goals have been refuted in this pass the verdict of the run is settled (exit 1) and the remaining open ones are not pursued
+            def enough(results_):
+                return sum(1 for r_ in results_ if isinstance(r_, dict) and r_.get("subs") and r_["subs"][0].get("verdict") in ("sat", "sat-qf")) >= 6
+
+            res2 = run_forked(len(WORK) - first_n, lambda j: work_item(first_n + j), min(16, os.cpu_count() or 4), self.budget["ob_s"] + 45, should_stop=enough)
             for (idx_, k_), r2 in zip(reopened, res2):
                 tgt = res[idx_]["subs"]
                 pos = next(p_ for p_, sr in enumerate(tgt) if sr.get("k") == k_)
-                if isinstance(r2, dict) and r2.get("subs"):
+                if r2 is None:
+                    tgt[pos] = {"verdict": "unknown", "backend": "", "model": None, "secs": 0, "goal": tgt[pos].get("goal", ""), "k": k_,
+                                "detail": [("second-pass", "not pursued: six sub-goals of this run were already refuted", 0)]}
+                elif isinstance(r2, dict) and r2.get("subs"):
                     tgt[pos] = r2["subs"][0]
                 else:
                     tgt[pos] = {"verdict": "unknown", "backend": "", "model": None, "secs": (r2 or {}).get("secs", 0) if isinstance(r2, dict) else 0,
